@@ -105,11 +105,11 @@ Definition sc_ops (cutoff : Z) (s : sys) : list op :=
   | _ => []
   end.
 
-Lemma sc_step_ops cfg cutoff s : s_st (sc_step cfg cutoff s) = final_spec cfg (s_st s) (sc_ops cutoff s).
+Lemma sc_step_ops cfg cutoff tf s : s_st (sc_step cfg cutoff tf s) = final_spec cfg (s_st s) (sc_ops cutoff s).
 Proof.
   unfold sc_step, sc_ops. destruct (s_phase s) as [|mb [|v rest]|b]; try reflexivity.
   - destruct (s_todo s); reflexivity.
-  - destruct (s_cancel s); reflexivity.
+  - destruct (s_cancel s && negb tf); reflexivity.
   - destruct (expired cutoff (snd v)); [|reflexivity]. cbn [s_st final_spec]. unfold do_remove.
     destruct (exec_spec cfg (s_st s) (Remove mb (Kth (fst v)))) as [[st' ob] ev]. reflexivity.
 Qed.
